@@ -40,6 +40,34 @@ Section Refs.
     rewrite !(p1_plain o cur t f S _ Hp Hh). split; reflexivity.
   Qed.
 
+  (* $merge in a map: when the referenced subtree merged with the host's own content is directive-free, the host
+     evaluates to exactly that merge - what writing the subtree inline under the host's content would give.
+     [S1] is the document with the $merge key taken out of the host, which is what the reference is resolved in. *)
+  Lemma p1_merge_inline f S loc m r inn di kp next :
+    lookup "$merge" m = Some r ->
+    get o (write_doc S cur loc (VMap (remove "$merge" m))) cur r = Ok (inn, (di, kp)) ->
+    (match loc with Some p => Nat.eqb di cur && keys_prefix kp p | None => false end) = false ->
+    merge_map (remove "$merge" m) inn = Ok next -> plain next -> height next <= f ->
+    exists S', p1 o cur (Datatypes.S f) S loc (VMap m) = Ok (dn next, S').
+  Proof.
+    intros Hm Hg Hc Hmm Hp Hh. cbn [p1]. rewrite Hm, Hg. cbn [bind]. rewrite Hc, Hmm. cbn [bind].
+    match goal with |- context [if ?b then _ else _] => destruct b end;
+      rewrite (p1_plain o cur next f _ _ Hp Hh); eexists; reflexivity.
+  Qed.
+
+  (* detached (a copy being evaluated): no document changes *)
+  Lemma p1_merge_inline_detached f S m r inn org next :
+    lookup "$merge" m = Some r -> get o S cur r = Ok (inn, org) ->
+    merge_map (remove "$merge" m) inn = Ok next -> plain next -> height next <= f ->
+    p1 o cur (Datatypes.S f) S None (VMap m) = Ok (dn next, S).
+  Proof.
+    intros Hm Hg Hmm Hp Hh. destruct org as [di kp].
+    assert (HS : write_doc S cur None (VMap (remove "$merge" m)) = S) by reflexivity.
+    cbn [p1]. rewrite Hm, HS, Hg. cbn [bind]. rewrite Hmm. cbn [bind].
+    match goal with |- context [if ?b then _ else _] => destruct b end; rewrite ?HS;
+      rewrite (p1_plain o cur next f _ _ Hp Hh); reflexivity.
+  Qed.
+
   (* index of the unique matching document: none -> error, several -> error *)
   Lemma cross_go_none pat S : forall i found, filter (fun d => vmatch d pat) S = [] ->
     cross_doc_go S pat i found = match found with Some j => Ok j | None => Err ENoMatch end.
